@@ -14,7 +14,10 @@ action name, intent, keys of a ContextUpdate, flow_id / text / script), taken fr
 
 A case is {"kind": "interp", "input": [rail…], "output": [rail…], "opts": None | [categories], "user": s, "bot": None | s,
 "llm_text": s} with rail = {"kind": "check", "needles": [s…]} (allowed iff no needle occurs in the text)
-| {"kind": "append", "text": s} | {"kind": "replace", "text": s}.
+| {"kind": "append", "text": s} | {"kind": "prepend", "text": s} | {"kind": "replace", "text": s}.
+
+Texts: a third of the user texts / supplied bot messages / rewriting-rail results are `po.hostile_texts()` - texts that look like
+syntax to the runtime's own plumbing (`$100 …`, `$user_message`, `{{ … }}`, quotes, newlines, blanks, empty, very long).
 """
 import asyncio
 import contextlib
@@ -70,11 +73,22 @@ def apply(rail, text):
         return not any(n in text for n in rail["needles"])
     if rail["kind"] == "append":
         return text + rail["text"]
+    if rail["kind"] == "prepend":
+        return rail["text"] + text
     return rail["text"]
 
 
 def _key(case):
     return tuple((cat, tuple("c" if r["kind"] == "check" else "r" for r in case.get(cat, []))) for cat in ("input", "output"))
+
+
+def shrink_texts(case):
+    for k in ("user", "bot"):
+        t = case.get(k)
+        if t and len(t) > 1:
+            yield dict(case, **{k: t[: max(1, len(t) // 2)]})
+            if " " in t:
+                yield dict(case, **{k: t.split(" ")[0] or t[:1]})
 
 
 def get_app(case):
@@ -252,23 +266,32 @@ def gen(rng, tier):
     words = ["hi", "bad", "evil", "fine", "x y", "héllo", ""]
     cases = []
 
+    hostile = po.hostile_texts()
+
     def g_rail():
         k = rng.random()
-        if k < 0.55:
+        if k < 0.5:
             return {"kind": "check", "needles": rng.sample(["bad", "evil", "!", "zz"], rng.randint(1, 2))}
+        if k < 0.7:
+            return {"kind": "append", "text": rng.choice(["!", " bad", "zz", "", "\n", " }}", "$"])}
         if k < 0.85:
-            return {"kind": "append", "text": rng.choice(["!", " bad", "zz", ""])}
-        return {"kind": "replace", "text": rng.choice(["fine", "evil", "bad"])}
+            return {"kind": "prepend", "text": rng.choice(["$", "$", "$ ", "{{ ", '"', " ", "\n"])}
+        return {"kind": "replace", "text": rng.choice(["fine", "evil", "bad", "$5 off", "$user_message", "$bot_message", "", "{{ x }}"])}
 
-    n = 6 if tier == "quick" else 60
+    def g_txt(tail):
+        if rng.random() < 0.4:
+            return po.pick_hostile(rng) + rng.choice(["", "", tail])
+        return rng.choice(words) + rng.choice(["", tail, " zz" if tail == " bad" else "!"])
+
+    n = 10 if tier == "quick" else 60
     for _ in range(n):
         shape_in = [g_rail() for _ in range(rng.choice([0, 1, 2, 2, 3, 4]))]
         shape_out = [g_rail() for _ in range(rng.choice([0, 1, 1, 2, 3]))]
         for o in subsets:
             dialog_off = o is not None and "dialog" not in o
             case = {"kind": "interp", "input": shape_in, "output": shape_out, "opts": o,
-                    "user": rng.choice(words) + rng.choice(["", " bad", " zz"]),
-                    "bot": (rng.choice(words) + rng.choice(["", " evil", "!"])) if dialog_off else None,
+                    "user": g_txt(" bad"),
+                    "bot": g_txt(" evil") if dialog_off else None,
                     "llm_text": rng.choice(["LLM says", "evil plan", "ok!"])}
             cases.append(case)
     return cases
@@ -278,6 +301,7 @@ def tags(case, obs):
     t = ["kind:interp", "interp-opts:" + ("none" if case.get("opts") is None else "+".join(case["opts"]) or "nothing"),
          f"interp-rails:{len(case.get('input', []))}in/{len(case.get('output', []))}out",
          f"interp-events:{len(obs.get('events') or []) // 20 * 20}+"]
+    t += ["interp-user-" + x for x in po.text_classes(case["user"])] + ["interp-bot-" + x for x in po.text_classes(case.get("bot"))]
     if obs.get("response") == REFUSAL:
         t.append("interp-refused")
     return t
@@ -289,3 +313,4 @@ def shrink(case):
             c = dict(case)
             c[cat] = case[cat][:i] + case[cat][i + 1:]
             yield c
+    yield from shrink_texts(case)
